@@ -5,86 +5,19 @@ import Stef.Otlp.Clean
 
 namespace Stef.Otlp
 
-/-! ### floats -/
+/-! ### floats: the setters store every bit pattern (repo commits 59db810, 7828c58) -/
 
-theorem fEq_eq_of_nnz {o n : Nat} (ho : o ≠ negZero) (hn : n ≠ negZero) (h : fEq o n = true) : o = n := by
-  simp only [fEq, Bool.and_eq_true, decide_eq_true_eq] at h
-  have hk := h.2
-  unfold fKey at hk
-  simp only [negZero, two63] at hk ho hn
-  by_cases h1 : o < 9223372036854775808 <;> by_cases h2 : n < 9223372036854775808 <;>
-    simp only [h1, h2, if_true, if_false] at hk <;> omega
-
-theorem setF_eq' (o n : Nat) : setF o n = n := by
+theorem setF_eq (o n : Nat) : setF o n = n := by
   unfold setF float64Equal
   split
   · rename_i h; exact (by simpa using h)
   · rfl
 
-/-- "the setters store this double": every double (see `nnzF`) -/
-abbrev Storable (_f : Nat) : Prop := True
-
-theorem setF_eq {o n : Nat} (_ho : Storable o) (_hn : Storable n) : setF o n = n := setF_eq' o n
-
-theorem nnzF_iff {f : Nat} : nnzF f = true ↔ Storable f := by simp [nnzF]
-
-theorem boundOk_iff {f : Nat} : boundOk f = true ↔ f ≠ negZero := by simp [boundOk]
-
-end Stef.Otlp
-
-namespace Stef.Otlp
-
-/-! ### `nnz` is preserved by the storage operations -/
-
-theorem SVal.nnz_fresh : SVal.fresh.nnz = true := by simp [SVal.fresh, SVal.nnz, SVals.nnz, SKVs.nnz]
-
-theorem SVal.nnz_reset {v : SVal} (h : v.nnz = true) : v.reset.nnz = true := by
-  cases v with
-  | mk c a al k kl =>
-    simp only [SVal.nnz, Bool.and_eq_true] at h
-    simp [SVal.reset, SVal.nnz, h.1.2, h.2]
-
-theorem SVals.nnz_ensure : ∀ (n : Nat) (st : SVals), st.nnz = true → (SVals.ensure n st).nnz = true
-  | 0, st, h => by simpa [SVals.ensure] using h
-  | n + 1, .nil, _ => by
-    simp [SVals.ensure, SVals.nnz, SVal.nnz_fresh, SVals.nnz_ensure n .nil (by simp [SVals.nnz])]
-  | n + 1, .cons v t, h => by
-    simp only [SVals.nnz, Bool.and_eq_true] at h
-    simp [SVals.ensure, SVals.nnz, h.1, SVals.nnz_ensure n t h.2]
-
-theorem SVals.nnz_resetRange : ∀ (st : SVals) (lo c : Nat), st.nnz = true → (SVals.resetRange lo c st).nnz = true
-  | .nil, lo, c, _ => by cases lo <;> cases c <;> simp [SVals.resetRange, SVals.nnz]
-  | .cons v t, 0, 0, h => by simpa [SVals.resetRange] using h
-  | .cons v t, 0, c + 1, h => by
-    simp only [SVals.nnz, Bool.and_eq_true] at h
-    simp [SVals.resetRange, SVals.nnz, SVal.nnz_reset h.1, SVals.nnz_resetRange t 0 c h.2]
-  | .cons v t, lo + 1, c, h => by
-    simp only [SVals.nnz, Bool.and_eq_true] at h
-    simp [SVals.resetRange, SVals.nnz, h.1, SVals.nnz_resetRange t lo c h.2]
-
-theorem SKVs.nnz_ensure : ∀ (n : Nat) (st : SKVs), st.nnz = true → (SKVs.ensure n st).nnz = true
-  | 0, st, h => by simpa [SKVs.ensure] using h
-  | n + 1, .nil, _ => by
-    simp [SKVs.ensure, SKVs.nnz, SVal.nnz_fresh, SKVs.nnz_ensure n .nil (by simp [SKVs.nnz])]
-  | n + 1, .cons k v t, h => by
-    simp only [SKVs.nnz, Bool.and_eq_true] at h
-    simp [SKVs.ensure, SKVs.nnz, h.1, SKVs.nnz_ensure n t h.2]
-
-theorem SKVs.nnz_resetRange : ∀ (st : SKVs) (lo c : Nat), st.nnz = true → (SKVs.resetRange lo c st).nnz = true
-  | .nil, lo, c, _ => by cases lo <;> cases c <;> simp [SKVs.resetRange, SKVs.nnz]
-  | .cons k v t, 0, 0, h => by simpa [SKVs.resetRange] using h
-  | .cons k v t, 0, c + 1, h => by
-    simp only [SKVs.nnz, Bool.and_eq_true] at h
-    simp [SKVs.resetRange, SKVs.nnz, SVal.nnz_reset h.1, SKVs.nnz_resetRange t 0 c h.2]
-  | .cons k v t, lo + 1, c, h => by
-    simp only [SKVs.nnz, Bool.and_eq_true] at h
-    simp [SKVs.resetRange, SKVs.nnz, h.1, SKVs.nnz_resetRange t lo c h.2]
-
-theorem nnz_arrEnsureLen {st : SVals} (len n : Nat) (h : st.nnz = true) : (arrEnsureLen st len n).nnz = true :=
-  SVals.nnz_resetRange _ _ _ (SVals.nnz_ensure n st h)
-
-theorem nnz_kvEnsureLen {st : SKVs} (len n : Nat) (h : st.nnz = true) : (kvEnsureLen st len n).nnz = true :=
-  SKVs.nnz_resetRange _ _ _ (SKVs.nnz_ensure n st h)
+theorem setFSlice_eq (old new : List Nat) : setFSlice old new = new := by
+  unfold setFSlice
+  split
+  · rename_i h; exact (by simpa using h)
+  · rfl
 
 /-! ### shape of the array / map cases -/
 
@@ -95,195 +28,50 @@ theorem otlpToTef_slice (vs : Values) (c : SCur) (a : SVals) (al : Nat) (k : SKV
 
 theorem otlpToTef_map (kvs : KVs) (c : SCur) (a : SVals) (al : Nat) (k : SKVs) (kl : Nat) :
     ∃ kl', otlpToTef (.map kvs) (.mk c a al k kl)
-      = .mk .kvlist a al (mapInto0 kvs (kvEnsureLen k kl' kvs.length)) kvs.length := by
+      = .mk .kvlist a al (zipInto kvs (kvEnsureLen k kl' kvs.length)) kvs.length := by
   cases c <;> exact ⟨_, rfl⟩
 
-end Stef.Otlp
-
-namespace Stef.Otlp
-
-/-! ### the conversion as written is faithful on values whose nested maps have at most one entry
-    (and that hold no -0.0), whatever the re-used destination held before -/
+/-! ### the conversion is faithful on every value, whatever the re-used destination held before -/
 
 mutual
-  theorem otlpToTef_spec : ∀ (v : AnyValue) (into : SVal), v.small = true → v.nnz = true → into.nnz = true →
-      tefToOtlpRaw (otlpToTef v into) = v ∧ (otlpToTef v into).nnz = true
-    | .empty, into, _, _, hi => by
-      cases into with
-      | mk c a al k kl =>
-        simp only [SVal.nnz, Bool.and_eq_true] at hi
-        simp [otlpToTef, SVal.reset, tefToOtlpRaw, SVal.nnz, hi.1.2, hi.2]
-    | .str s, .mk c a al k kl, _, _, hi => by
-      simp only [SVal.nnz, Bool.and_eq_true] at hi
-      exact ⟨rfl, by simp [otlpToTef, SVal.setScalar, SVal.nnz, hi.1.2, hi.2]⟩
-    | .bool b, .mk c a al k kl, _, _, hi => by
-      simp only [SVal.nnz, Bool.and_eq_true] at hi
-      exact ⟨rfl, by simp [otlpToTef, SVal.setScalar, SVal.nnz, hi.1.2, hi.2]⟩
-    | .int i, .mk c a al k kl, _, _, hi => by
-      simp only [SVal.nnz, Bool.and_eq_true] at hi
-      exact ⟨rfl, by simp [otlpToTef, SVal.setScalar, SVal.nnz, hi.1.2, hi.2]⟩
-    | .bytes b, .mk c a al k kl, _, _, hi => by
-      simp only [SVal.nnz, Bool.and_eq_true] at hi
-      exact ⟨rfl, by simp [otlpToTef, SVal.setScalar, SVal.nnz, hi.1.2, hi.2]⟩
-    | .dbl f, .mk c a al k kl, _, hn, hi => by
-      have hf : Storable f := nnzF_iff.mp (by simpa [AnyValue.nnz] using hn)
-      simp only [SVal.nnz, Bool.and_eq_true] at hi
-      cases c with
-      | dbl o =>
-        have ho : Storable o := nnzF_iff.mp hi.1.1
-        simp [otlpToTef, SVal.setFloat, tefToOtlpRaw, SVal.nnz, setF_eq ho hf, nnzF_iff.mpr hf, hi.1.2, hi.2]
-      | _ => simp [otlpToTef, SVal.setFloat, tefToOtlpRaw, SVal.nnz, nnzF_iff.mpr hf, hi.1.2, hi.2]
-    | .slice vs, .mk c a al k kl, hs, hn, hi => by
+  theorem otlpToTef_spec : ∀ (v : AnyValue) (into : SVal), tefToOtlpRaw (otlpToTef v into) = v
+    | .empty, .mk c a al k kl => by simp [otlpToTef, SVal.reset, tefToOtlpRaw]
+    | .str s, .mk c a al k kl => rfl
+    | .bool b, .mk c a al k kl => rfl
+    | .int i, .mk c a al k kl => rfl
+    | .bytes b, .mk c a al k kl => rfl
+    | .dbl f, .mk c a al k kl => by
+      cases c <;> simp [otlpToTef, SVal.setFloat, tefToOtlpRaw, setF_eq]
+    | .slice vs, .mk c a al k kl => by
       obtain ⟨al', he⟩ := otlpToTef_slice vs c a al k kl
-      simp only [SVal.nnz, Bool.and_eq_true] at hi
-      have ih := sliceInto_spec vs (arrEnsureLen a al' vs.length) (by simpa [AnyValue.small] using hs)
-        (by simpa [AnyValue.nnz] using hn) (nnz_arrEnsureLen _ _ hi.1.2)
       rw [he]
-      exact ⟨by simp [tefToOtlpRaw, ih.1], by simp [SVal.nnz, ih.2, hi.2]⟩
-    | .map kvs, .mk c a al k kl, hs, hn, hi => by
+      simp [tefToOtlpRaw, sliceInto_spec vs (arrEnsureLen a al' vs.length)]
+    | .map kvs, .mk c a al k kl => by
       obtain ⟨kl', he⟩ := otlpToTef_map kvs c a al k kl
-      simp only [SVal.nnz, Bool.and_eq_true] at hi
-      simp only [AnyValue.small, Bool.and_eq_true, decide_eq_true_eq] at hs
-      have ih := mapInto0_spec kvs (kvEnsureLen k kl' kvs.length) hs.1 hs.2
-        (by simpa [AnyValue.nnz] using hn) (nnz_kvEnsureLen _ _ hi.2)
       rw [he]
-      exact ⟨by simp [tefToOtlpRaw, ih.1], by simp [SVal.nnz, ih.2, hi.1.2]⟩
-  theorem sliceInto_spec : ∀ (vs : Values) (st : SVals), vs.small = true → vs.nnz = true → st.nnz = true →
-      tefVals vs.length (sliceInto vs st) = vs ∧ (sliceInto vs st).nnz = true
-    | .nil, st, _, _, hi => by simp [sliceInto, Values.length, tefVals, hi]
-    | .cons v t, .cons s st, hs, hn, hi => by
-      simp only [Values.small, Values.nnz, SVals.nnz, Bool.and_eq_true] at hs hn hi
-      have h1 := otlpToTef_spec v s hs.1 hn.1 hi.1
-      have h2 := sliceInto_spec t st hs.2 hn.2 hi.2
-      simp [sliceInto, Values.length, tefVals, SVals.nnz, h1.1, h1.2, h2.1, h2.2]
-    | .cons v t, .nil, hs, hn, _ => by
-      simp only [Values.small, Values.nnz, Bool.and_eq_true] at hs hn
-      have h1 := otlpToTef_spec v SVal.fresh hs.1 hn.1 SVal.nnz_fresh
-      have h2 := sliceInto_spec t .nil hs.2 hn.2 (by simp [SVals.nnz])
-      simp [sliceInto, Values.length, tefVals, SVals.nnz, h1.1, h1.2, h2.1, h2.2]
-  theorem mapInto0_spec : ∀ (kvs : KVs) (st : SKVs), kvs.length ≤ 1 → kvs.small = true → kvs.nnz = true →
-      st.nnz = true → tefKVs kvs.length (mapInto0 kvs st) = kvs ∧ (mapInto0 kvs st).nnz = true
-    | .nil, st, _, _, _, hi => by simp [mapInto0, KVs.length, tefKVs, hi]
-    | .cons k v .nil, .cons k0 s st, _, hs, hn, hi => by
-      simp only [KVs.small, KVs.nnz, SKVs.nnz, Bool.and_eq_true] at hs hn hi
-      have h1 := otlpToTef_spec v s hs.1 hn.1 hi.1
-      simp [mapInto0, KVs.length, tefKVs, SKVs.nnz, h1.1, h1.2, hi.2]
-    | .cons k v .nil, .nil, _, hs, hn, _ => by
-      simp only [KVs.small, KVs.nnz, Bool.and_eq_true] at hs hn
-      have h1 := otlpToTef_spec v SVal.fresh hs.1 hn.1 SVal.nnz_fresh
-      simp [mapInto0, KVs.length, tefKVs, SKVs.nnz, h1.1, h1.2]
-    | .cons _ _ (.cons _ _ _), _, hl, _, _, _ => by simp [KVs.length] at hl
+      simp [tefToOtlpRaw, zipInto_spec kvs (kvEnsureLen k kl' kvs.length)]
+  theorem sliceInto_spec : ∀ (vs : Values) (st : SVals), tefVals vs.length (sliceInto vs st) = vs
+    | .nil, st => by simp [sliceInto, Values.length, tefVals]
+    | .cons v t, .cons s st => by
+      simp [sliceInto, Values.length, tefVals, otlpToTef_spec v s, sliceInto_spec t st]
+    | .cons v t, .nil => by
+      simp [sliceInto, Values.length, tefVals, otlpToTef_spec v SVal.fresh, sliceInto_spec t .nil]
+  theorem zipInto_spec : ∀ (kvs : KVs) (st : SKVs), tefKVs kvs.length (zipInto kvs st) = kvs
+    | .nil, st => by simp [zipInto, KVs.length, tefKVs]
+    | .cons k v t, .cons k0 s st => by
+      simp [zipInto, KVs.length, tefKVs, otlpToTef_spec v s, zipInto_spec t st]
+    | .cons k v t, .nil => by
+      simp [zipInto, KVs.length, tefKVs, otlpToTef_spec v SVal.fresh, zipInto_spec t .nil]
 end
 
-end Stef.Otlp
+theorem mapUnsorted_spec (m : KVs) (out : SAttrs) : (SAttrs.mapUnsorted m out).visible = m :=
+  zipInto_spec m (kvEnsureLen out.store out.len m.length)
 
-namespace Stef.Otlp
+theorem copyFrom_spec (m : KVs) (out : SAttrs) : (SAttrs.copyFrom m out).visible = m :=
+  zipInto_spec m (kvEnsureLen out.store out.len m.length)
 
-/-! ### the fixed conversion (index incremented; also what `CopyFrom` does) is faithful on every
-    value without -0.0 -/
-
-theorem otlpToTefFixed_slice (vs : Values) (c : SCur) (a : SVals) (al : Nat) (k : SKVs) (kl : Nat) :
-    ∃ al', otlpToTefFixed (.slice vs) (.mk c a al k kl)
-      = .mk .array (sliceIntoFixed vs (arrEnsureLen a al' vs.length)) vs.length k kl := by
-  cases c <;> exact ⟨_, rfl⟩
-
-theorem otlpToTefFixed_map (kvs : KVs) (c : SCur) (a : SVals) (al : Nat) (k : SKVs) (kl : Nat) :
-    ∃ kl', otlpToTefFixed (.map kvs) (.mk c a al k kl)
-      = .mk .kvlist a al (zipIntoFixed kvs (kvEnsureLen k kl' kvs.length)) kvs.length := by
-  cases c <;> exact ⟨_, rfl⟩
-
-mutual
-  theorem otlpToTefFixed_spec : ∀ (v : AnyValue) (into : SVal), v.nnz = true → into.nnz = true →
-      tefToOtlpRaw (otlpToTefFixed v into) = v ∧ (otlpToTefFixed v into).nnz = true
-    | .empty, .mk c a al k kl, _, hi => by
-      simp only [SVal.nnz, Bool.and_eq_true] at hi
-      simp [otlpToTefFixed, SVal.reset, tefToOtlpRaw, SVal.nnz, hi.1.2, hi.2]
-    | .str s, .mk c a al k kl, _, hi => by
-      simp only [SVal.nnz, Bool.and_eq_true] at hi
-      exact ⟨rfl, by simp [otlpToTefFixed, SVal.setScalar, SVal.nnz, hi.1.2, hi.2]⟩
-    | .bool b, .mk c a al k kl, _, hi => by
-      simp only [SVal.nnz, Bool.and_eq_true] at hi
-      exact ⟨rfl, by simp [otlpToTefFixed, SVal.setScalar, SVal.nnz, hi.1.2, hi.2]⟩
-    | .int i, .mk c a al k kl, _, hi => by
-      simp only [SVal.nnz, Bool.and_eq_true] at hi
-      exact ⟨rfl, by simp [otlpToTefFixed, SVal.setScalar, SVal.nnz, hi.1.2, hi.2]⟩
-    | .bytes b, .mk c a al k kl, _, hi => by
-      simp only [SVal.nnz, Bool.and_eq_true] at hi
-      exact ⟨rfl, by simp [otlpToTefFixed, SVal.setScalar, SVal.nnz, hi.1.2, hi.2]⟩
-    | .dbl f, .mk c a al k kl, hn, hi => by
-      have hf : Storable f := nnzF_iff.mp (by simpa [AnyValue.nnz] using hn)
-      simp only [SVal.nnz, Bool.and_eq_true] at hi
-      cases c with
-      | dbl o =>
-        have ho : Storable o := nnzF_iff.mp hi.1.1
-        simp [otlpToTefFixed, SVal.setFloat, tefToOtlpRaw, SVal.nnz, setF_eq ho hf, nnzF_iff.mpr hf, hi.1.2, hi.2]
-      | _ => simp [otlpToTefFixed, SVal.setFloat, tefToOtlpRaw, SVal.nnz, nnzF_iff.mpr hf, hi.1.2, hi.2]
-    | .slice vs, .mk c a al k kl, hn, hi => by
-      obtain ⟨al', he⟩ := otlpToTefFixed_slice vs c a al k kl
-      simp only [SVal.nnz, Bool.and_eq_true] at hi
-      have ih := sliceIntoFixed_spec vs (arrEnsureLen a al' vs.length)
-        (by simpa [AnyValue.nnz] using hn) (nnz_arrEnsureLen _ _ hi.1.2)
-      rw [he]
-      exact ⟨by simp [tefToOtlpRaw, ih.1], by simp [SVal.nnz, ih.2, hi.2]⟩
-    | .map kvs, .mk c a al k kl, hn, hi => by
-      obtain ⟨kl', he⟩ := otlpToTefFixed_map kvs c a al k kl
-      simp only [SVal.nnz, Bool.and_eq_true] at hi
-      have ih := zipIntoFixed_spec kvs (kvEnsureLen k kl' kvs.length)
-        (by simpa [AnyValue.nnz] using hn) (nnz_kvEnsureLen _ _ hi.2)
-      rw [he]
-      exact ⟨by simp [tefToOtlpRaw, ih.1], by simp [SVal.nnz, ih.2, hi.1.2]⟩
-  theorem sliceIntoFixed_spec : ∀ (vs : Values) (st : SVals), vs.nnz = true → st.nnz = true →
-      tefVals vs.length (sliceIntoFixed vs st) = vs ∧ (sliceIntoFixed vs st).nnz = true
-    | .nil, st, _, hi => by simp [sliceIntoFixed, Values.length, tefVals, hi]
-    | .cons v t, .cons s st, hn, hi => by
-      simp only [Values.nnz, SVals.nnz, Bool.and_eq_true] at hn hi
-      have h1 := otlpToTefFixed_spec v s hn.1 hi.1
-      have h2 := sliceIntoFixed_spec t st hn.2 hi.2
-      simp [sliceIntoFixed, Values.length, tefVals, SVals.nnz, h1.1, h1.2, h2.1, h2.2]
-    | .cons v t, .nil, hn, _ => by
-      simp only [Values.nnz, Bool.and_eq_true] at hn
-      have h1 := otlpToTefFixed_spec v SVal.fresh hn.1 SVal.nnz_fresh
-      have h2 := sliceIntoFixed_spec t .nil hn.2 (by simp [SVals.nnz])
-      simp [sliceIntoFixed, Values.length, tefVals, SVals.nnz, h1.1, h1.2, h2.1, h2.2]
-  theorem zipIntoFixed_spec : ∀ (kvs : KVs) (st : SKVs), kvs.nnz = true → st.nnz = true →
-      tefKVs kvs.length (zipIntoFixed kvs st) = kvs ∧ (zipIntoFixed kvs st).nnz = true
-    | .nil, st, _, hi => by simp [zipIntoFixed, KVs.length, tefKVs, hi]
-    | .cons k v t, .cons k0 s st, hn, hi => by
-      simp only [KVs.nnz, SKVs.nnz, Bool.and_eq_true] at hn hi
-      have h1 := otlpToTefFixed_spec v s hn.1 hi.1
-      have h2 := zipIntoFixed_spec t st hn.2 hi.2
-      simp [zipIntoFixed, KVs.length, tefKVs, SKVs.nnz, h1.1, h1.2, h2.1, h2.2]
-    | .cons k v t, .nil, hn, _ => by
-      simp only [KVs.nnz, Bool.and_eq_true] at hn
-      have h1 := otlpToTefFixed_spec v SVal.fresh hn.1 SVal.nnz_fresh
-      have h2 := zipIntoFixed_spec t .nil hn.2 (by simp [SKVs.nnz])
-      simp [zipIntoFixed, KVs.length, tefKVs, SKVs.nnz, h1.1, h1.2, h2.1, h2.2]
-end
-
-/-- top-level attribute lists as written (`MapUnsorted`): faithful when the values are `small` -/
-theorem zipInto_spec : ∀ (kvs : KVs) (st : SKVs), kvs.small = true → kvs.nnz = true → st.nnz = true →
-    tefKVs kvs.length (zipInto kvs st) = kvs ∧ (zipInto kvs st).nnz = true
-  | .nil, st, _, _, hi => by simp [zipInto, KVs.length, tefKVs, hi]
-  | .cons k v t, .cons k0 s st, hs, hn, hi => by
-    simp only [KVs.small, KVs.nnz, SKVs.nnz, Bool.and_eq_true] at hs hn hi
-    have h1 := otlpToTef_spec v s hs.1 hn.1 hi.1
-    have h2 := zipInto_spec t st hs.2 hn.2 hi.2
-    simp [zipInto, KVs.length, tefKVs, SKVs.nnz, h1.1, h1.2, h2.1, h2.2]
-  | .cons k v t, .nil, hs, hn, _ => by
-    simp only [KVs.small, KVs.nnz, Bool.and_eq_true] at hs hn
-    have h1 := otlpToTef_spec v SVal.fresh hs.1 hn.1 SVal.nnz_fresh
-    have h2 := zipInto_spec t .nil hs.2 hn.2 (by simp [SKVs.nnz])
-    simp [zipInto, KVs.length, tefKVs, SKVs.nnz, h1.1, h1.2, h2.1, h2.2]
-
-theorem mapUnsorted_spec (m : KVs) (out : SAttrs) (hs : m.small = true) (hn : m.nnz = true) (ho : out.nnz = true) :
-    (SAttrs.mapUnsorted m out).visible = m ∧ (SAttrs.mapUnsorted m out).nnz = true := by
-  have h := zipInto_spec m (kvEnsureLen out.store out.len m.length) hs hn (nnz_kvEnsureLen _ _ ho)
-  exact ⟨h.1, h.2⟩
-
-theorem copyFrom_spec (m : KVs) (out : SAttrs) (hn : m.nnz = true) (ho : out.nnz = true) :
-    (SAttrs.copyFrom m out).visible = m ∧ (SAttrs.copyFrom m out).nnz = true := by
-  have h := zipIntoFixed_spec m (kvEnsureLen out.store out.len m.length) hn (nnz_kvEnsureLen _ _ ho)
-  exact ⟨h.1, h.2⟩
+theorem mapSorted_spec (m : KVs) (out : SAttrs) : (SAttrs.mapSorted m out).visible = m.sortByKey :=
+  mapUnsorted_spec m.sortByKey out
 
 /-! ### `PutEmpty` merging is the identity on maps with distinct keys -/
 
@@ -367,69 +155,18 @@ mutual
       simp [dedupKVs, dedupValue_nodup v h.1, dedupKVs_nodup t h.2]
 end
 
-/-- a clean attribute map written by `MapUnsorted` into any (-0.0-free) destination is read back
-    by `TefToOtlpMap` unchanged -/
-theorem attrs_roundtrip (m : KVs) (out : SAttrs) (hc : m.clean = true) (ho : out.nnz = true) :
-    (SAttrs.mapUnsorted m out).toOtlp = m ∧ (SAttrs.mapUnsorted m out).nnz = true := by
+/-- reading back a clean map stored in an otelstef.Attributes -/
+theorem toOtlp_of_visible (a : SAttrs) (m : KVs) (hv : a.visible = m) (hc : m.clean = true) : a.toOtlp = m := by
   simp only [KVs.clean, Bool.and_eq_true] at hc
-  have h := mapUnsorted_spec m out hc.1.2 hc.2 ho
-  refine ⟨?_, h.2⟩
   unfold SAttrs.toOtlp
-  rw [h.1, dedupKVs_nodup m hc.1.1.2, KVs.dedup_nodup m hc.1.1.1]
+  rw [hv, dedupKVs_nodup m hc.2, KVs.dedup_nodup m hc.1]
 
-end Stef.Otlp
+/-- a clean attribute map written by `MapUnsorted` into any destination is read back by
+    `TefToOtlpMap` unchanged -/
+theorem attrs_roundtrip (m : KVs) (out : SAttrs) (hc : m.clean = true) : (SAttrs.mapUnsorted m out).toOtlp = m :=
+  toOtlp_of_visible _ m (mapUnsorted_spec m out) hc
 
-namespace Stef.Otlp
-
-/-! ### `MapSorted`: sorting the entries keeps them clean -/
-
-theorem KVs.insertByKey_small : ∀ (l : KVs) (k : Str) (v : AnyValue),
-    (KVs.insertByKey k v l).small = (v.small && l.small)
-  | .nil, k, v => by simp [KVs.insertByKey, KVs.small]
-  | .cons k' v' t, k, v => by
-    simp only [KVs.insertByKey]
-    split
-    · simp [KVs.small]
-    · simp only [KVs.small, KVs.insertByKey_small t k v]
-      cases v.small <;> cases v'.small <;> cases t.small <;> rfl
-
-theorem KVs.insertByKey_nnz : ∀ (l : KVs) (k : Str) (v : AnyValue),
-    (KVs.insertByKey k v l).nnz = (v.nnz && l.nnz)
-  | .nil, k, v => by simp [KVs.insertByKey, KVs.nnz]
-  | .cons k' v' t, k, v => by
-    simp only [KVs.insertByKey]
-    split
-    · simp [KVs.nnz]
-    · simp only [KVs.nnz, KVs.insertByKey_nnz t k v]
-      cases v.nnz <;> cases v'.nnz <;> cases t.nnz <;> rfl
-
-theorem KVs.sortAux_small : ∀ (l acc : KVs), (KVs.sortAux l acc).small = (l.small && acc.small)
-  | .nil, acc => by simp [KVs.sortAux, KVs.small]
-  | .cons k v t, acc => by
-    simp only [KVs.sortAux, KVs.sortAux_small t, KVs.insertByKey_small, KVs.small]
-    cases v.small <;> cases t.small <;> cases acc.small <;> rfl
-
-theorem KVs.sortAux_nnz : ∀ (l acc : KVs), (KVs.sortAux l acc).nnz = (l.nnz && acc.nnz)
-  | .nil, acc => by simp [KVs.sortAux, KVs.nnz]
-  | .cons k v t, acc => by
-    simp only [KVs.sortAux, KVs.sortAux_nnz t, KVs.insertByKey_nnz, KVs.nnz]
-    cases v.nnz <;> cases t.nnz <;> cases acc.nnz <;> rfl
-
-theorem KVs.sortByKey_small (l : KVs) : l.sortByKey.small = l.small := by
-  simp [KVs.sortByKey, KVs.sortAux_small, KVs.small]
-
-theorem KVs.sortByKey_nnz (l : KVs) : l.sortByKey.nnz = l.nnz := by
-  simp [KVs.sortByKey, KVs.sortAux_nnz, KVs.nnz]
-
-theorem mapSorted_spec (m : KVs) (out : SAttrs) (hs : m.small = true) (hn : m.nnz = true) (ho : out.nnz = true) :
-    (SAttrs.mapSorted m out).visible = m.sortByKey ∧ (SAttrs.mapSorted m out).nnz = true :=
-  mapUnsorted_spec m.sortByKey out (by rw [KVs.sortByKey_small]; exact hs) (by rw [KVs.sortByKey_nnz]; exact hn) ho
-
-end Stef.Otlp
-
-namespace Stef.Otlp
-
-/-! ### sorting keeps keys distinct -/
+/-! ### `MapSorted`: sorting the entries keeps the keys distinct -/
 
 theorem nodupKeys_iff : ∀ (l : List Str), nodupKeys l = true ↔ l.Nodup
   | [] => by simp [nodupKeys]
@@ -484,55 +221,6 @@ theorem KVs.sortByKey_nodup (l : KVs) : l.sortByKey.nodup = l.nodup := by
 
 theorem KVs.sortByKey_clean (l : KVs) (h : l.clean = true) : l.sortByKey.clean = true := by
   simp only [KVs.clean, Bool.and_eq_true] at h ⊢
-  exact ⟨⟨⟨KVs.sortByKey_nodupKeys l h.1.1.1, by rw [KVs.sortByKey_nodup]; exact h.1.1.2⟩,
-    by rw [KVs.sortByKey_small]; exact h.1.2⟩, by rw [KVs.sortByKey_nnz]; exact h.2⟩
-
-theorem clean_small_nnz' {a : KVs} (h : a.clean = true) : a.small = true ∧ a.nnz = true := by
-  simp only [KVs.clean, Bool.and_eq_true] at h
-  exact ⟨h.1.2, h.2⟩
-
-/-- reading back a clean map stored in an otelstef.Attributes -/
-theorem toOtlp_of_visible (a : SAttrs) (m : KVs) (hv : a.visible = m) (hc : m.clean = true) : a.toOtlp = m := by
-  simp only [KVs.clean, Bool.and_eq_true] at hc
-  unfold SAttrs.toOtlp
-  rw [hv, dedupKVs_nodup m hc.1.1.2, KVs.dedup_nodup m hc.1.1.1]
-
-end Stef.Otlp
-
-namespace Stef.Otlp
-
-/-! ### the `nnz` predicates hold for every value (see `nnzF` in Stef/Otlp/Clean.lean) -/
-
-mutual
-  theorem AnyValue.nnz_true : ∀ v : AnyValue, v.nnz = true
-    | .empty => rfl
-    | .str _ => rfl
-    | .bool _ => rfl
-    | .int _ => rfl
-    | .dbl _ => rfl
-    | .bytes _ => rfl
-    | .slice vs => by simp [AnyValue.nnz, Values.nnz_true vs]
-    | .map kvs => by simp [AnyValue.nnz, KVs.nnz_true kvs]
-  theorem Values.nnz_true : ∀ vs : Values, vs.nnz = true
-    | .nil => rfl
-    | .cons v t => by simp [Values.nnz, AnyValue.nnz_true v, Values.nnz_true t]
-  theorem KVs.nnz_true : ∀ kvs : KVs, kvs.nnz = true
-    | .nil => rfl
-    | .cons _ v t => by simp [KVs.nnz, AnyValue.nnz_true v, KVs.nnz_true t]
-end
-
-mutual
-  theorem SVal.nnz_true : ∀ v : SVal, v.nnz = true
-    | .mk c a _ k _ => by
-      cases c <;> simp [SVal.nnz, nnzF, SVals.nnz_true a, SKVs.nnz_true k]
-  theorem SVals.nnz_true : ∀ vs : SVals, vs.nnz = true
-    | .nil => rfl
-    | .cons v t => by simp [SVals.nnz, SVal.nnz_true v, SVals.nnz_true t]
-  theorem SKVs.nnz_true : ∀ kvs : SKVs, kvs.nnz = true
-    | .nil => rfl
-    | .cons _ v t => by simp [SKVs.nnz, SVal.nnz_true v, SKVs.nnz_true t]
-end
-
-theorem SAttrs.nnz_true (a : SAttrs) : a.nnz = true := SKVs.nnz_true a.store
+  exact ⟨KVs.sortByKey_nodupKeys l h.1, by rw [KVs.sortByKey_nodup]; exact h.2⟩
 
 end Stef.Otlp
